@@ -5,15 +5,16 @@ package main
 // from the run's PRNG.
 
 const (
-	cSameCall = iota // every task issues the same call (variants may differ)
-	cSamePath        // same file path, different texts
-	cSameText        // same text, different paths / entry points
-	cDisjoint        // unrelated calls
-	cSharedRO        // one parsed result shared read-only by all tasks
+	cSameCall   = iota // every task issues the same call (variants may differ)
+	cSamePath          // same file path, different texts
+	cSameText          // same text, different paths / entry points
+	cDisjoint          // unrelated calls
+	cSharedRO          // one parsed result shared read-only by all tasks
+	cSameFamily        // texts derived from one source (same length / same prefix), same paths
 	nContention
 )
 
-var contentionNames = []string{"same-call", "same-path", "same-text", "disjoint", "shared-read-only"}
+var contentionNames = []string{"same-call", "same-path", "same-text", "disjoint", "shared-read-only", "same-family"}
 
 type planInfo struct {
 	Contention int
@@ -35,7 +36,42 @@ func genPlan(r *rng, refs *refTable) (*Plan, planInfo) {
 	twiceOn := r.chance(1, 2)
 	info.Contention = r.intn(nContention)
 
-	pickOp := func() opKey { return pool.ops[r.intn(len(pool.ops))] }
+	// per-run input-class weights (swarm): 0 switches a class off for this run
+	var weights [nClasses]int
+	wsum := 0
+	for c := range weights {
+		if len(pool.byClass[c]) == 0 {
+			continue
+		}
+		switch r.intn(4) {
+		case 0:
+			weights[c] = 0
+		case 1:
+			weights[c] = 1
+		default:
+			weights[c] = 1 + r.intn(8)
+		}
+		wsum += weights[c]
+	}
+	if wsum == 0 {
+		for c := range weights {
+			if len(pool.byClass[c]) > 0 {
+				weights[c] = 1
+				wsum++
+			}
+		}
+	}
+	pickOp := func() opKey {
+		x := r.intn(wsum)
+		for c := range weights {
+			if x < weights[c] {
+				l := pool.byClass[c]
+				return pool.ops[l[r.intn(len(l))]]
+			}
+			x -= weights[c]
+		}
+		return pool.ops[r.intn(len(pool.ops))]
+	}
 	var cand []int32
 	switch info.Contention {
 	case cSameCall:
@@ -52,6 +88,19 @@ func genPlan(r *rng, refs *refTable) (*Plan, planInfo) {
 	case cSameText:
 		k := pickOp()
 		cand = pool.byInput[k.Input]
+	case cSameFamily:
+		// a family with at least two members if one can be found quickly
+		for tries := 0; tries < 30; tries++ {
+			l := pool.byClass[clsSibling]
+			if len(l) == 0 {
+				break
+			}
+			k := pool.ops[l[r.intn(len(l))]]
+			cand = pool.byFamily[pool.inputs[k.Input].family]
+			if len(cand) > 0 {
+				break
+			}
+		}
 	case cSharedRO:
 		// a parse entry whose result has nodes
 		var k opKey
